@@ -17,6 +17,7 @@ Model-independent oracles (failing-input search):
 import collections
 import itertools
 import random
+import sys
 
 import numpy as np
 
@@ -70,6 +71,9 @@ def vsexp(t, d, cache, form="py"):
             elif lay == 2:
                 order = [int(a) for a in t[3]]
                 arr = np.ascontiguousarray(arr.transpose(order)).transpose(np.argsort(order))
+            # ... or held in the other BYTE order (data read from a big-endian file): the values are the same
+            if dt.itemsize > 1 and (sum(flat) + 2 * len(shape)) % 4 == 0:
+                arr = arr.astype(dt.newbyteorder(">" if sys.byteorder == "little" else "<"))
             return "(nd (" + " ".join(map(str, shape)) + ") " + " ".join(f"(bits {b})" for b in flat) + ")", arr
 
         def conv(x, dims):
